@@ -1,0 +1,28 @@
+//go:build verif && unix
+
+package vgirpc
+
+import "github.com/apache/arrow-go/v18/arrow"
+
+// Verification hooks for property C36 (shared-memory pipe sessions match plain
+// pipe sessions and leak no slots). Add-only; nothing here is used by the library.
+
+func init() {
+	verifConstProviders = append(verifConstProviders, func() []VerifConst {
+		return []VerifConst{
+			verifBytes("c36_k_seg_name", MetaShmSegmentName),
+			verifBytes("c36_k_seg_size", MetaShmSegmentSize),
+			verifNum("c36_header_size", ShmHeaderSize),
+		}
+	})
+}
+
+// VerifC36ResultBatch builds the result batch of a registered unary method the
+// way serveUnary does (serializeResult on the method's result schema).
+func VerifC36ResultBatch(s *Server, method string, val any) (arrow.RecordBatch, error) {
+	info, ok := s.methods[method]
+	if !ok {
+		return nil, &RpcError{Type: "AttributeError", Message: "no such method " + method}
+	}
+	return serializeResult(info.ResultSchema, val)
+}
